@@ -41,7 +41,11 @@ class Ob:
 
 def load_known():
     with open(os.path.join(VERIF, 'known_findings.json')) as f:
-        return json.load(f)
+        k = json.load(f)
+    if os.environ.get('VERIF_IGNORE_SIGNATURE_FINDINGS') == '1':
+        # maintenance mode used only by tools/accept_known.py (never by a registered check command)
+        k['findings'] = [e for e in k['findings'] if e.get('region')]
+    return k
 
 
 class Run:
@@ -97,9 +101,16 @@ class Run:
             by_backend[o.backend] = by_backend.get(o.backend, 0) + 1
         for o in known:
             print(f'KNOWN-FINDING: property={self.prop} {o.oid}: {o.detail}')
-        for o in violations:
+        for o in violations[:60]:
+            if not o.replay:
+                # no executable counterexample: the replay file names the failed obligation and carries the verifier's output
+                o.replay = write_replay(self.prop, o.oid, f"print({o.oid!r})\nprint({str(o.detail)!r})\nprint('no failing input was constructed for this obligation')\nsys.exit(2)\n",
+                                        header=str(o.detail))
+                o.detail = 'no-failing-input-found: ' + str(o.detail)
             tail = '' if (o.replay and not str(o.detail or '').startswith('no-failing-input-found')) else ' no-failing-input-found'
             print(f'VIOLATION property={self.prop} replay={o.replay or "-"} obligation={o.oid}{tail}')
+        if len(violations) > 60:
+            print(f'... and {len(violations) - 60} more violated obligations of {self.prop} (listed in the evidence file)')
         for o in undecided[:20]:
             print(f'UNDECIDED property={self.prop} obligation={o.oid}: {o.detail}', file=sys.stderr)
         for o in crashes[:20]:
@@ -176,9 +187,20 @@ def run_replay(path, root='/repo', timeout=120):
     return r.returncode, (r.stdout + r.stderr)[-2000:]
 
 
-def replay_many(prop, items, root='/repo', workers=16):
-    """items: list of (oid, source, header) -> {oid: (path, rc, output)}; replays run in parallel subprocesses"""
+REPLAY_CAP = 48
+
+
+def replay_many(prop, items, root='/repo', workers=16, cap=None):
+    """items: list of (oid, source, header) -> {oid: (path, rc, output)}; replays run in parallel subprocesses.
+    At most `cap` replays are executed per run (the first ones in obligation order); the remaining violations are still
+    reported, with their replay file written but not executed."""
     from concurrent.futures import ThreadPoolExecutor
+    cap = REPLAY_CAP if cap is None else cap
+    items = sorted(items)
+    rest = items[cap:]
+    items = items[:cap]
+    for oid, src, header in rest:
+        write_replay(prop, oid, src, header=header)
     paths = {oid: write_replay(prop, oid, src, header=header) for oid, src, header in items}
 
     def one(oid):
